@@ -3,7 +3,7 @@ from props.l1props import *
 
 
 def run(tier, seed, replay=None):
-    ck, _ = run_prop("C02", tier, seed, replay, 500, 6000, fixed=l1.pool_scenarios, soak=["130-heartbeats", "1600-end-marker-updates/end_marker=False", "datapath-down-and-up"],
+    ck, _ = run_prop("C02", tier, seed, replay, 500, 6000, fixed=lambda r: l1.pool_scenarios(r) + l1.variant_scenarios(r, 4), soak=["130-heartbeats", "1600-end-marker-updates/end_marker=False", "datapath-down-and-up"],
                      rule="random histories over 2 associations x up to 4 sessions (setup, establishment incl. without association, the "
                           "modification kinds of tools/l1.py, deletion, unknown-SEID requests, heartbeat, report response, release, teardown, restart), "
                           "sequence numbers incl. 0 / 2^24-1, CP SEIDs incl. 0 / 2^64-1; distinct = distinct event byte sequences; plus soak histories (130 heartbeats before and after association with and "
